@@ -368,6 +368,17 @@ def _lin_over_ints(t):
     return None
 
 
+def _floor_core(t):
+    # floor(x / q) == floor(x) div q for a positive integer q: one canonical to_int(x) per x
+    if t.decl().kind() == z3.Z3_OP_MUL and t.num_args() == 2:
+        c, u = t.arg(0), t.arg(1)
+        if z3.is_rational_value(u):
+            c, u = u, c
+        if z3.is_rational_value(c) and c.numerator_as_long() == 1 and c.denominator_as_long() > 1:
+            return _floor_real(u) / c.denominator_as_long()
+    return z3.ToInt(t)
+
+
 def _floor_real(t):
     """floor of a real term.  A rational-affine combination of integer terms becomes an integer
     division by a constant (z3 decides `div` by constants well, and to_int of to_real badly)."""
@@ -377,6 +388,15 @@ def _floor_real(t):
         # integer addends come out of the floor: floor(n + x) = n + floor(x)
         ipart, rest = [], []
         for ch in t.children():
+            if z3.is_rational_value(ch):
+                # numeral: whole part comes out, the fractional part in [0,1) stays (canonical)
+                q = F(ch.numerator_as_long(), ch.denominator_as_long())
+                n = q.numerator // q.denominator
+                if n != 0:
+                    ipart.append(z3.IntVal(n))
+                if q - n != 0:
+                    rest.append(z3.RealVal(str(q - n)))
+                continue
             rr = _lin_over_ints(ch)
             if rr is not None and all(c.denominator == 1 for c in rr[0].values()) and rr[1].denominator == 1:
                 e = z3.IntVal(int(rr[1]))
@@ -386,14 +406,10 @@ def _floor_real(t):
             else:
                 rest.append(ch)
         if ipart and rest:
-            return z3.simplify(z3.Sum(ipart) + z3.ToInt(z3.simplify(z3.Sum(rest)) if len(rest) > 1 else rest[0]))
-    if r is None and t.decl().kind() == z3.Z3_OP_MUL and t.num_args() == 2:
-        # floor(x / q) == floor(x) div q for a positive integer q: one canonical to_int(x) per x
-        c, u = t.arg(0), t.arg(1)
-        if z3.is_rational_value(u):
-            c, u = u, c
-        if z3.is_rational_value(c) and c.numerator_as_long() == 1 and c.denominator_as_long() > 1:
-            return _floor_real(u) / c.denominator_as_long()
+            rs = z3.simplify(z3.Sum(rest)) if len(rest) > 1 else rest[0]
+            return z3.simplify(z3.Sum(ipart) + _floor_core(rs))
+    if r is None:
+        return _floor_core(t)
     if r is not None and r[0]:
         coeffs, c0 = r
         Q = 1
